@@ -118,6 +118,16 @@ func Main(args []string) int {
 				fmt.Println(k, "=>", v)
 			}
 		}
+		if *dump == "swallow" {
+			for _, f := range p.Funcs {
+				if inTesting(f) {
+					continue
+				}
+				for _, sw := range SwallowedErrors(f) {
+					fmt.Printf("%s: error of %s (%s) -> return nil at %s\n", FuncName(f), sw.Desc, p.Pos(sw.Call.Pos()), p.Pos(sw.Ret.Pos()))
+				}
+			}
+		}
 		if *dump == "funcs" {
 			for _, f := range p.Funcs {
 				fmt.Println(FuncName(f), p.Pos(f.Pos()))
